@@ -24,6 +24,8 @@ def explain(case, verdict, o, model):
         return "KF-C04-1"
     if exc == "AttributeError" and case["kind"] == "error-field-passed-to-parent":
         return "KF-C04-2"
+    if exc == "TypeError" and case["kind"] == "form-with-no-protocol":
+        return "KF-C04-5"
     if exc == "TypeError" and case["kind"] == "operand" and n.get("op") == "+" and n.get("left") == "Str" and n.get("right") in ("Int", "Float", "Bool"):
         return "KF-C04-3"
     return None
@@ -32,7 +34,7 @@ def explain(case, verdict, o, model):
 def run(tier):
     chk = vlib.Check(PROP, tier)
     vh = vlib.build_harness()
-    cases = families.all_programs(chk, depth_values=1, depth_verdict=0 if tier == "quick" else 1, gen=200 if tier == "quick" else 4000)
+    cases = families.all_programs(chk, depth_values=1, depth_verdict=0 if tier == "quick" else 1, gen=200 if tier == "quick" else 4000, forms=True)
     obs = runs.observe(vh, cases)
     verdicts = runs.judge_runs(chk, cases, obs)
     c01.classify(chk, PROP, "c04", cases, obs, verdicts, explain)
